@@ -338,6 +338,14 @@ func c16TextCSV(c statCase) (v vcase.Verdict) {
 					fail("table %d row %q column %d: text %q vs csv %v: %s", ti, label, col, m[1], val, why)
 					return
 				}
+				// a row's shared scale shows every non-zero value with at least three significant digits
+				if val != 0 {
+					digits := strings.TrimLeft(strings.NewReplacer("-", "", ".", "").Replace(scaledRe.FindStringSubmatch(m[1])[1]+scaledRe.FindStringSubmatch(m[1])[2]+scaledRe.FindStringSubmatch(m[1])[3]), "0")
+					if len(digits) < 3 {
+						fail("table %d row %q column %d: %q shows fewer than three significant digits of %v", ti, label, col, m[1], val)
+						return
+					}
+				}
 				if m[2] != csvCell[1] {
 					fail("table %d row %q column %d: text range %q, csv %q", ti, label, col, m[2], csvCell[1])
 					return
